@@ -605,13 +605,17 @@ theorem GZ_smQueueResend (h : GZ c) : GZ (smQueueResend c) := by
 /-! ### handlers that may complete the negotiation: started with no disconnect notification yet -/
 
 theorem G_negotiationSuccess (h : GZ c) : G (negotiationSuccess c) := by
-  unfold negotiationSuccess notify
-  intro p hp hc
-  rcases List.mem_append.1 hp with hp | hp
-  · exact h.1 p hp hc
-  · simp only [List.mem_singleton] at hp
-    subst hp
-    exact h.2
+  have h1 : G (notify { c with negotiated := true } .connect) := by
+    unfold notify
+    intro p hp hc
+    rcases List.mem_append.1 hp with hp | hp
+    · exact h.1 p hp hc
+    · simp only [List.mem_singleton] at hp
+      subst hp
+      exact h.2
+  unfold negotiationSuccess
+  dsimp only
+  exact pred_ite (P := G) (fun _ => G_sendStanza h1) (fun _ => h1)
 
 theorem G_notify' (h : GZ c) : G (notify c .rawConnect) := by
   unfold notify
@@ -903,6 +907,7 @@ theorem HL_step (op : Op) (h : HL c) : HL (step c op) := by
   | setSched l d => exact h
   | tick ms => exact h
   | setSmCallback => exact h
+  | setSendOnConnect on => exact h
   | setFlags f => exact HL_setFlags h
   | usend it => exact HL_xmppSend h
   | uraw it => exact HL_xmppSendRaw h
@@ -928,6 +933,7 @@ theorem G_step (op : Op) (hI : Inv c) (hH : HL c) (h : G c) : G (step c op) := b
   | setSched l d => exact h
   | tick ms => exact h
   | setSmCallback => exact h
+  | setSendOnConnect on => exact h
   | setFlags f => exact G_setFlags h
   | usend it => exact G_xmppSend h
   | uraw it => exact G_xmppSendRaw h
